@@ -763,7 +763,7 @@ def c07(ck):
         if c["mode"] == "deadline":
             src = c["src"]
             # the outermost try has a plain-value handler, an endless body and no endless finally: the handler's value
-            m = re.match(r"^\(try (\(lp 0\)|\(rcl\)|\(spin\)|\(sleep 100000\)|@\(future \(sleep 100000\)\)) \(catch e \(trace! :hh\) :h\)( \(finally \(trace! :ff\) :h\))?\)$", src)
+            m = re.match(r"^\(try (\(lp 0\)|\(rcl\)|\(spin\)|\(sleep 100000\)|@\(future \(sleep 100000\)\)|\(eval '\(lp 0\)\)|\(eval \(list 'sleep 100000\)\)|\(let \[fc \(future \(busy! 30000\)\)\] \(future-cancel fc\) @fc\)) \(catch e \(trace! :hh\) :h\)( \(finally \(trace! :ff\) :h\))?\)$", src)
             if m:
                 c["opt"] = {"expect": "value", "effects": ":hh" + (" :ff" if m.group(2) else "")}
             elif "try" not in src:
